@@ -84,6 +84,7 @@ pub fn run(fams: &[&str], seed: u64, n: usize) {
             "coeff" => fam_coeff(&mut rng, n, &mut out),
             "pid" => fam_pid(&mut rng, n, &mut out),
             "glue" => fam_glue(&mut rng, n, &mut out),
+            "repr" => fam_repr(&mut rng, n, &mut out),
             "cossin_all" => fam_cossin_all(&mut out),
             "osub_all" => fam_osub_all(&mut out),
             "num8_all" => fam_num8_all(&mut out),
@@ -1556,6 +1557,64 @@ fn fam_glue(rng: &mut Rng, n: usize, out: &mut Out) {
                 let mut s2 = Sweep::new(rate, sw);
                 let _ = guard(|| s2.next());
                 out.emit(&format!("accuosc {} {} {}", rate, sw, ph), r.map(|z| format!("{} {} {} {}", s2.state, o.state, z.re, z.im)));
+            }
+        }
+    }
+}
+
+// ------------------------------------------------------------------ Pid::build / BiquadRepr::Ba glue (repr.rs, pid.rs)
+fn fam_repr(rng: &mut Rng, n: usize, out: &mut Out) {
+    use idsp::iir::{Ba, BiquadRepr, Order, Pid};
+    for i in 0..n {
+        let dec = |rng: &mut Rng| -> f64 { 10f64.powi(rng.range(-5, 2) as i32) * (1.0 + rng.below(900) as f64 / 100.0) };
+        let period = 10f64.powi(rng.range(-3, 1) as i32) * (1.0 + rng.below(9) as f64);
+        let b_scale = dec(rng) * if rng.chance(1, 5) { -1.0 } else { 1.0 };
+        let y_scale = dec(rng) * 100.0;
+        if i % 2 == 0 {
+            let mut pid = Pid::<f64>::default();
+            let order = [Order::P, Order::I, Order::I2][rng.below(3) as usize];
+            *pid.order = order;
+            let mut gains = [0f64; 5];
+            let mut limits = [f64::INFINITY; 5];
+            for j in 0..5 {
+                if rng.chance(1, 2) { gains[j] = dec(rng) * if rng.chance(1, 3) { -1.0 } else { 1.0 }; }
+                if rng.chance(1, 3) { limits[j] = match rng.below(6) { 0 => f64::NAN, _ => dec(rng) * if rng.chance(1, 3) { -1.0 } else { 1.0 } }; }
+                *pid.gain.value[j] = gains[j];
+                *pid.limit.value[j] = limits[j];
+            }
+            let setpoint = rng.range(-1000, 1000) as f64 / 100.0;
+            let (mn, mx) = if rng.chance(1, 2) { (f64::NEG_INFINITY, f64::INFINITY) } else { (-(dec(rng)), dec(rng)) };
+            *pid.setpoint = setpoint;
+            *pid.min = mn;
+            *pid.max = mx;
+            let args = format!("{} {} {} {} {} {} {} {} {}", period.to_bits(), order as usize, list(&gains.map(|v| v.to_bits())), list(&limits.map(|v| v.to_bits())),
+                b_scale.to_bits(), y_scale.to_bits(), setpoint.to_bits(), mn.to_bits(), mx.to_bits());
+            if i % 4 == 0 || crate::MODE != 'C' {
+                let b: Biquad<f64> = pid.build::<f64, f64>(period, b_scale, y_scale);
+                if b.ba().iter().all(|v| v.is_finite()) && b.u().is_finite() {
+                    out.emit(&format!("f_pidrepr 0 0 {}", args), Some(format!("{} {} {} {}", list(&b.ba().map(|v| v.to_bits())), b.u().to_bits(), b.min().to_bits(), b.max().to_bits())));
+                }
+            } else if let Some(b) = guard(|| pid.build::<i32, f64>(period, b_scale, y_scale)) {
+                out.emit(&format!("f_pidrepr 32 30 {}", args), Some(format!("{} {} {} {}", list(b.ba()), b.u(), b.min(), b.max())));
+            }
+        } else {
+            let mut ba = Ba::<f64>::default();
+            let c = |rng: &mut Rng| rng.range(-2000, 2000) as f64 / 1000.0;
+            let a0 = 0.5 + rng.below(3000) as f64 / 1000.0;
+            let coef = [[c(rng) * a0 / 8.0, c(rng) * a0 / 8.0, c(rng) * a0 / 8.0], [a0, c(rng) * a0 * 0.9, c(rng) * a0 * 0.45]];
+            *ba.ba = coef;
+            let (u, mn, mx) = (rng.range(-100, 100) as f64 / 10.0, -(dec(rng)), dec(rng));
+            *ba.u = u;
+            *ba.min = mn;
+            *ba.max = mx;
+            let bs = if rng.chance(1, 2) { 1.0 } else { 0.25 + rng.below(4) as f64 * 0.25 };
+            let flat = [coef[0][0], coef[0][1], coef[0][2], coef[1][0], coef[1][1], coef[1][2]];
+            let args = format!("{} {} {} {} {} {}", list(&flat.map(|v| v.to_bits())), bs.to_bits(), y_scale.to_bits(), u.to_bits(), mn.to_bits(), mx.to_bits());
+            if i % 4 == 1 {
+                let b: Biquad<f64> = BiquadRepr::<f64, f64>::Ba(ba).build::<f64>(period, bs, y_scale);
+                out.emit(&format!("f_ba 0 0 {}", args), Some(format!("{} {} {} {}", list(&b.ba().map(|v| v.to_bits())), b.u().to_bits(), b.min().to_bits(), b.max().to_bits())));
+            } else if let Some(b) = guard(|| BiquadRepr::<f64, i32>::Ba(ba).build::<f64>(period, bs, y_scale)) {
+                out.emit(&format!("f_ba 32 30 {}", args), Some(format!("{} {} {} {}", list(b.ba()), b.u(), b.min(), b.max())));
             }
         }
     }
